@@ -47,6 +47,16 @@ std::size_t CDNS::CdnsExporter::write_file_header()
     return written;
 }
 
+void CDNS::CdnsReader::end_of_file()
+{
+    // A file array of indefinite length is closed by its own break after the array of blocks:
+    // without it the input is truncated, not finished
+    if (m_indef_file) {
+        m_decoder.read_break();
+        m_indef_file = false;
+    }
+}
+
 void CDNS::CdnsReader::read_file_header()
 {
     bool indef = false;
@@ -54,6 +64,7 @@ void CDNS::CdnsReader::read_file_header()
 
     if (length != 3 && !indef)
         throw CdnsDecoderException("Invalid structure of C-DNS file");
+    m_indef_file = indef;
 
     // Read File type ID -> "C-DNS" string
     std::string file_start = m_decoder.read_textstring();
@@ -75,12 +86,14 @@ CDNS::CdnsBlockRead CDNS::CdnsReader::read_block(bool& eof)
 
     if (m_indef_blocks && m_decoder.peek_type() == CborType::BREAK) {
         m_decoder.read_break();
-        eof = true;
         m_indef_blocks = false;
         m_blocks_count = m_blocks_read;
+        end_of_file();
+        eof = true;
         return block;
     }
     else if (!m_indef_blocks && m_blocks_read == m_blocks_count) {
+        end_of_file();
         eof = true;
         return block;
     }
